@@ -403,6 +403,17 @@ pub fn run(sc: &Value) -> Vec<Value> {
                     finished_ok = r.is_ok();
                     evs.push(json!({"ev": "ZFinish", "sc": id, "r": rclass(&r)}));
                 }
+                "append" => {
+                    // continue the archive just finished (the store is shared): C13 at the real limits
+                    match ZipWriter::new_append(store.view()) {
+                        Ok(nw) => {
+                            w = std::mem::ManuallyDrop::new(nw);
+                            finished_ok = false;
+                            evs.push(json!({"ev": "ZAppend", "sc": id, "r": "ok"}));
+                        }
+                        Err(_) => evs.push(json!({"ev": "ZAppend", "sc": id, "r": "err"})),
+                    }
+                }
                 _ => {}
             }
         }
